@@ -28,6 +28,7 @@ type txnShape struct {
 }
 
 func runC18(c *core.Ctx) {
+	runFixtures(c, "locks", "drop")
 	c.Explain("Structural clauses of C18 decided from source for every Go-level keyvalue.Transaction implementation found by type (mem.transaction, keyvalue.unsafeSerialTransaction): (R18.1) on every path through Get/GetHandler/Set/SetHandler exactly one result is recorded and its Op is the id returned; (R18.2) every path allocates exactly one id, including the aborted path; (R18.3) every store access in an op method is dominated by the not-aborted edge of an abort check; (R18.4) the handler's error flows into the recorded result's Err; (R18.5) a transaction type whose constructor returns holding a mutex releases it on every path of Commit and of Abort, and each release is idempotent (sync.Once) so Abort followed by Commit cannot unlock twice; (R18.6) in package keyvalue every successfully begun transaction is followed by Commit or Abort on every path (paths that fail only because a callee's ValidPath gate rejected the name are pruned, assumption A7); (R18.7) Commit returns the recorded results in id order (append order, or index-by-id). NOT claimed: isolation between concurrent transactions, that a Get reflects earlier Sets (values), liveness.")
 	c.Assume("A6: partial correctness — 'on every path' means every path that returns",
 		"A7: inside keyvalue.FS a name that reaches setFileTxn was validated by the caller chain (C04/R04.1 checks the gates); paths on which only that validation fails are not required to end the transaction")
